@@ -1,7 +1,7 @@
 (* BcVM: theorems.  See notes/BcVM.md for the list and their status. *)
 From Coq Require Import List NArith ZArith PArith Bool String Lia.
 From Coq Require Import Strings.Byte FSets.FMapPositive.
-From YV Require Bytecode Skeleton Verifier VerifierProofs.
+From YV Require Bytecode Skeleton Verifier VerifierProofs Wire.
 From YV Require Import Ast Show Num SpecValues SpecHeap SpecOps SpecNatives SpecMachine BcVM BcVMRun.
 Import ListNotations.
 Local Close Scope Z_scope.
@@ -2330,3 +2330,68 @@ Section Refine6.
 End Refine6.
 Print Assumptions bcvm_refines_skeleton_local.
 Print Assumptions verified_frame_stays_verified_local.
+
+(* ------------------------------------------------------------------ *)
+(** * 12. Programs loaded from the wire satisfy the function part of [rel]
+
+   For every program that arrives through [load_wire] (i.e. every program the correspondence check runs), each
+   function of the environment is the function of the same index of the verifier's view [ld_prog] and carries the
+   tabulated reference decoder: hypothesis [r_fn] of [rel] holds for every frame of every such run. *)
+
+Lemma index_map_find : forall {A} (l : list A) i m k,
+    PM.find (nkey k) (index_map l i m) =
+    if ((i <=? k) && (k <? i + N.of_nat (List.length l)))%N
+    then nth_error l (N.to_nat (k - i)) else PM.find (nkey k) m.
+Proof.
+  intros A l; induction l as [|x r IH]; intros i m k; cbn [index_map List.length].
+  - replace (i + N.of_nat 0)%N with i by lia.
+    destruct (i <=? k)%N eqn:E1, (k <? i)%N eqn:E2; cbn; try reflexivity.
+    apply N.leb_le in E1; apply N.ltb_lt in E2; lia.
+  - rewrite IH. clear IH.
+    destruct (N.eq_dec k i) as [->|Hne].
+    + assert (A1 : ((N.succ i <=? i) && (i <? N.succ i + N.of_nat (List.length r)))%N = false).
+      { apply andb_false_iff; left. apply N.leb_gt. lia. }
+      assert (A2 : ((i <=? i) && (i <? i + N.of_nat (S (List.length r))))%N = true).
+      { apply andb_true_iff; split; [apply N.leb_le | apply N.ltb_lt]; lia. }
+      rewrite A1, A2, PositiveMap.gss. replace (i - i)%N with 0%N by lia. reflexivity.
+    + assert (C : ((N.succ i <=? k) && (k <? N.succ i + N.of_nat (List.length r)))%N =
+                  ((i <=? k) && (k <? i + N.of_nat (S (List.length r))))%N).
+      { destruct (N.succ i <=? k)%N eqn:E1, (i <=? k)%N eqn:E3,
+                 (k <? N.succ i + N.of_nat (List.length r))%N eqn:E2,
+                 (k <? i + N.of_nat (S (List.length r)))%N eqn:E4; cbn; try reflexivity;
+          rewrite ?N.leb_le, ?N.leb_gt, ?N.ltb_lt, ?N.ltb_ge in *; lia. }
+      rewrite C.
+      destruct ((i <=? k) && (k <? i + N.of_nat (S (List.length r))))%N eqn:R.
+      * apply andb_true_iff in R as [R1 R2]. apply N.leb_le in R1. apply N.ltb_lt in R2.
+        replace (N.to_nat (k - i)) with (S (N.to_nat (k - N.succ i))) by lia. reflexivity.
+      * rewrite PositiveMap.gso; [reflexivity|]. intro E; apply nkey_inj in E; congruence.
+Qed.
+
+Lemma build_prog_fn : forall fns k bf,
+    PM.find (nkey k) (build_prog fns) = Some bf ->
+    bf_imap bf = imap_of (program_of fns) (bf_raw bf) /\
+    nth_error (program_of fns) (N.to_nat k) = Some (bf_raw bf).
+Proof.
+  intros fns k bf H. unfold build_prog in H. rewrite index_map_find in H.
+  destruct ((0 <=? k) && (k <? 0 + N.of_nat (List.length (map (build_fn (program_of fns)) fns))))%N;
+    [|rewrite PositiveMap.gempty in H; discriminate].
+  replace (k - 0)%N with k in H by lia.
+  rewrite nth_error_map in H. destruct (nth_error fns (N.to_nat k)) as [r|] eqn:E; [|discriminate].
+  inversion H; subst bf. split; [reflexivity|].
+  unfold program_of. rewrite nth_error_map, E. reflexivity.
+Qed.
+
+Theorem loaded_program_functions : forall w ld k bf,
+    load_wire w = Some ld -> get_fn (ld_env ld) k = Some bf ->
+    bf_imap bf = imap_of (ld_prog ld) (bf_raw bf) /\
+    nth_error (ld_prog ld) (N.to_nat k) = Some (bf_raw bf).
+Proof.
+  intros w ld k bf H G. unfold load_wire in H.
+  destruct (Wire.split_bar w) as [|core [|main mods]]; try discriminate.
+  destruct (parse_tree 0 (Wire.parse_nss core)) as [lc|]; [|discriminate].
+  destruct (parse_tree _ (Wire.parse_nss main)) as [lm|]; [|discriminate].
+  destruct (parse_modules _ _ _ _) as [[fns srcs]|]; [|discriminate].
+  inversion H; subst ld. cbn in *. unfold get_fn in G. cbn in G.
+  apply build_prog_fn. exact G.
+Qed.
+Print Assumptions loaded_program_functions.
